@@ -50,7 +50,7 @@ func (m *C07Monitor) init() {
 // depSetsAt lists the deployment's ObjectSets (controller ref uid == dep uid or label) at trace index idx.
 func depSetsAt(r *Runner, idx int) []map[string]any {
 	var out []map[string]any
-	for _, k := range r.KeysAt(engine.PKOGroup, "ObjectSet", idx) {
+	for _, k := range r.KeysAt(engine.PKOGroup, depSetKind(), idx) {
 		o := r.StateAt(k, idx)
 		if isDepSet(o) {
 			out = append(out, o)
@@ -139,10 +139,10 @@ func (m *C07Monitor) history(r *Runner) error {
 func (m *C07Monitor) AfterPass(r *Runner, pv *PassView) error {
 	m.init()
 	m.trackEpoch(r)
-	if pv.P.Controller == engine.CtrlObjectDeployment {
+	if isDepController(pv.P.Controller) {
 		base := pv.P.FirstSeq
 		for ci, c := range pv.Calls {
-			if c.Actor != "pko" || c.Key.Kind != "ObjectSet" || c.DryRun {
+			if c.Actor != "pko" || c.Key.Kind != depSetKind() || c.DryRun {
 				continue
 			}
 			idx := base + ci
@@ -176,7 +176,7 @@ func (m *C07Monitor) AfterPass(r *Runner, pv *PassView) error {
 			circ := ""
 			listed := map[string]bool{}
 			for _, lc := range pv.Calls[:ci] {
-				if lc.Verb == "list" && lc.Key.Kind == "ObjectSet" {
+				if lc.Verb == "list" && lc.Key.Kind == depSetKind() {
 					for _, n := range asList(lc.Body) {
 						listed[asStr(n)] = true
 					}
